@@ -230,6 +230,18 @@ fn main() {
         Some("run") => orchestrate(&args[2], &args[3]),
         Some("worker") => worker(&args[2..]),
         Some("replay") => replay(&args[2]),
+        Some("selftest") => match kvlib::selftest::run() {
+            Ok(notes) => {
+                for n in notes {
+                    println!("selftest: {}", n);
+                }
+                0
+            }
+            Err(e) => {
+                println!("selftest FAILED: {}", e);
+                2
+            }
+        },
         Some("fuzz-replay") => {
             // re-executes a libFuzzer artifact through the same decoder and oracle, without libFuzzer
             let data = std::fs::read(&args[3]).expect("read artifact");
@@ -440,6 +452,19 @@ fn orchestrate(id: &str, tier: &str) -> i32 {
     let exe = std::env::current_exe().unwrap();
     let n = std::env::var("VERIF_WORKERS").ok().and_then(|s| s.parse().ok()).unwrap_or(def.workers);
     let limit = Duration::from_secs(std::env::var("VERIF_TIMEOUT_S").ok().and_then(|s| s.parse().ok()).unwrap_or(if tier == "thorough" { 3 * 3600 } else { 1500 }));
+    // the trusted base tests itself first; a failure makes the whole check inconclusive
+    let mut selftest_notes: Vec<String> = Vec::new();
+    match Command::new(&exe_path()).arg("selftest").output() {
+        Ok(o) if o.status.success() => selftest_notes = String::from_utf8_lossy(&o.stdout).lines().map(|l| l.to_string()).collect(),
+        Ok(o) => {
+            eprintln!("INCONCLUSIVE: {}", String::from_utf8_lossy(&o.stdout).trim());
+            return 2;
+        }
+        Err(e) => {
+            eprintln!("INCONCLUSIVE: cannot run the self-test: {}", e);
+            return 2;
+        }
+    }
     // permanent regression replays (shrunk cases of earlier findings) run first, in every tier
     let mut regress_violations: Vec<Violation> = Vec::new();
     let mut regress_run = 0u64;
@@ -471,6 +496,25 @@ fn orchestrate(id: &str, tier: &str) -> i32 {
             .spawn()
             .expect("spawn worker");
         children.push(child);
+    }
+    // thorough tier: a slice of the filesystem-facing checks also runs on ext4 (/var/tmp) instead of tmpfs
+    let ext4_slice = tier == "thorough" && matches!(id, "C02" | "C07" | "C09" | "C11" | "C17" | "C18") && std::env::var_os("VERIF_SCRATCH").is_none();
+    let ext4_dir = std::path::PathBuf::from(format!("/var/tmp/kv-ext4-{}", std::process::id()));
+    if ext4_slice {
+        use std::os::unix::fs::PermissionsExt;
+        let _ = std::fs::create_dir_all(&ext4_dir);
+        let _ = std::fs::set_permissions(&ext4_dir, std::fs::Permissions::from_mode(0o777));
+        for i in 0..n {
+            let child = Command::new(&exe)
+                .args(["worker", id, tier, &seed.wrapping_add(7777).to_string(), &i.to_string(), &n.to_string()])
+                .env("VERIF_SCRATCH", &ext4_dir)
+                .env("VERIF_SCALE_DIV", "10")
+                .stdout(Stdio::piped())
+                .stderr(Stdio::inherit())
+                .spawn()
+                .expect("spawn worker");
+            children.push(child);
+        }
     }
     // drain stdout concurrently
     let mut readers = Vec::new();
@@ -513,6 +557,10 @@ fn orchestrate(id: &str, tier: &str) -> i32 {
         }
     }
     infra.extend(merged.inconclusive.iter().cloned());
+    if ext4_slice {
+        let _ = std::fs::remove_dir_all(&ext4_dir);
+        merged.assumptions.insert("thorough tier: a second set of workers (1/10 of the generated workload; enumerations in full) ran on ext4 under /var/tmp".into());
+    }
     if tier == "thorough" {
         if let Some((target, runs, max_len)) = fuzz_plan(id) {
             fuzz_campaign(&root, target, runs, max_len, seed, &mut merged, &mut infra);
@@ -520,6 +568,7 @@ fn orchestrate(id: &str, tier: &str) -> i32 {
     }
     merged.violations.extend(regress_violations);
     merged.extra.insert("regression_replays_run".into(), json!(regress_run));
+    merged.extra.insert("shim_selftest".into(), json!(selftest_notes));
 
     // known findings
     let known: serde_json::Value = std::fs::read_to_string(root.join("known_findings.json")).ok().and_then(|s| serde_json::from_str(&s).ok()).unwrap_or(json!({"findings": []}));
